@@ -402,7 +402,8 @@ def step (m : MState) (e : TEv) : MState :=
         -- C17: the attempts of a round are separated by the backoff (at least 45 ms: 50 ms less 10 %).  When one round (or
         -- one takeover attempt) is all that can be alive - a single spawn in the life span of a round, fault-free store - two
         -- Creates after it that are closer than that cannot both be its attempts
-        let x := if kind == OpKind.create && m.hyp.maxLat > 0 && m.hyp.faultsEnd == 0 && !x.cut then
+        let x := if kind == OpKind.create && m.hyp.maxLat > 0 && m.hyp.faultsEnd == 0 && !x.cut &&
+                    (match x.lastCutAt with | some c => decide (c + roundLife m.hyp.maxLat + 2000000000 < e.t) | none => true) then
             match x.lastCreateAt, x.spawns.filter (fun sp => sp + roundLife m.hyp.maxLat ≥ e.t) with
             | some c, [sp] =>
               if sp ≤ c ∧ c + 45000000 > e.t then
@@ -609,7 +610,7 @@ def step (m : MState) (e : TEv) : MState :=
   | .cancelCtx i =>
     -- the application ends the run by cancelling the context it passed to Start ("the election will stop gracefully"):
     -- from here on the instance is not expected to lead, compete or refresh; a leader must step down (C03 / C08 clauses apply)
-    { m with w := w0.updInst i fun x => { x with stopCalledSince := some e.t, graceDue := none, verifyOpen := none, claimDue := none } }
+    { m with w := w0.updInst i fun x => { x with stopCalledSince := some e.t, graceDue := none, verifyOpen := none, claimDue := none, runCancelledAt := some e.t } }
   | .site op fn =>
     -- C09: background activity ends as soon as operations already in flight return — an operation that a background
     -- goroutine issues after a stop call began is remembered and judged when that call returns successfully
@@ -640,6 +641,10 @@ def step (m : MState) (e : TEv) : MState :=
                       (match mu.after with | some r => (match r.val with | .own id t _ => id == i && t == tok | _ => false) | none => false)
         let w := checkW w own "C13" "claim-without-own-write" s!"instance {i} raises the flag with token {tok} it never published"
         let w := checkW w (x.stoppedSince.isNone) "C09" "leader-after-stop" s!"instance {i} reports leadership after its stop returned"
+        -- C19: a term that begins in a run whose context the application has already cancelled has a promotion context that is
+        -- cancelled from the start, and nothing left to end it (the run's loops are gone)
+        let w := checkW w (x.flag || (match x.runCancelledAt with | some tc => decide (tc ≥ e.t) | none => true)) "C19" "term-begins-in-a-cancelled-run"
+          s!"instance {i} starts a term at {e.t}; the context of its run was cancelled at {repr x.runCancelledAt} and it has not been started again"
         let w := checkW w (lid = i) "C18" "leader-leaderid" s!"instance {i} is leader but LeaderID() is {lid}"
         let w := checkW w (¬ x.flag ∨ x.flagTok = tok) "C05" "token-changed-within-term" s!"instance {i}: token {x.flagTok} → {tok} while leading"
         let w := checkW w (x.flag ∨ ¬ x.claimedToks.contains tok) "C05" "token-reclaimed" s!"instance {i} starts a second term with token {tok}"
@@ -746,7 +751,7 @@ def step (m : MState) (e : TEv) : MState :=
         | .start, .ok =>
           ({ w with apis := w.apis.map fun (a : ApiCall) => if a.inst = i then { a with superseded := true } else a } : World).updInst i fun x =>
             let x := addSpawn x e.t m.hyp.maxLat
-            { x with runToks := [], orphanTok := none, stoppedSince := none, stopCalledSince := none, everStarted := true, lastTo := 1, startedAt := e.t, candidateSince := e.t, lastMissAt := none, trigs := [], createCredit := x.createCredit + 1 }   -- (Start's own attempt is not a round: it does not wait)
+            { x with runToks := [], orphanTok := none, stoppedSince := none, stopCalledSince := none, everStarted := true, lastTo := 1, startedAt := e.t, candidateSince := e.t, lastMissAt := none, trigs := [], createCredit := x.createCredit + 1, runCancelledAt := none }   -- (Start's own attempt is not a round: it does not wait)
         | .stop, .ok =>
           -- a Start called while this stop was in progress begins a new run: the stop's guarantees end there
           if a.superseded then (w.setInst { x with stopsInProgress := x.stopsInProgress - 1 }).hit "C09:stop-superseded-by-start" else
@@ -874,8 +879,8 @@ def step (m : MState) (e : TEv) : MState :=
         let w1 := if x.flag then w0.hit "C11:reconnect-while-leading" else w0
         { m with w := w1.setInst x1 }
       | .closed => { m with w := w0 }
-  | .crash i => { m with w := w0.updInst i fun x => { x with cut := true, claimDue := none } }
-  | .partition i on => { m with w := w0.updInst i fun x => { x with cut := on, candidateSince := e.t, claimDue := none } }
+  | .crash i => { m with w := w0.updInst i fun x => { x with cut := true, claimDue := none, lastCutAt := some e.t } }
+  | .partition i on => { m with w := w0.updInst i fun x => { x with cut := on, candidateSince := e.t, claimDue := none, lastCutAt := some e.t } }
   | .watchFail _ _ => { m with w := w0 }
   | .panic i => { m with w := failW w0 "C13" "panic" s!"instance {i} panicked" }
   | .newErr _ => { m with w := w0 }
